@@ -1460,3 +1460,9 @@ _C16_UE = "    undirected_edges = filter(lambda e: e[0] > e[1], zip(fro, to))\n 
 V("rf-c16-ue-mask", "C16", "silent", UT, _C16_UE, "    lower = fro > to\n    return list(zip(fro[lower], to[lower]))\n", what="boolean mask on the parallel index arrays")
 V("rf-c16-ue-mask-nonstrict", "C16", "silent", UT, _C16_UE, "    lower = fro >= to\n    return list(zip(fro[lower], to[lower]))\n", what="differs on the diagonal only, which graphs do not use")
 V("rf-c16-ue-mask-unfiltered-second", "C16", "fire", UT, _C16_UE, "    lower = fro > to\n    return list(zip(fro[lower], to))\n", rule=None, what="second array not filtered: pairs misaligned", accept_inconclusive=True)
+
+# ------------------------------------------------------------------------------- C07 refactor forms (round 1, taken in late)
+_C07_CH = "        # Add \"backward pointing\" edges\n        for j in range(i, 0, -1):\n            A[j, j - 1] = 1\n        # Add \"forward pointing\" edges\n        for j in range(i, p - 1):\n            A[j, j + 1] = 1\n"
+V("rf-c07-chain-vectorised", "C07", "silent", UT, _C07_CH, "        backward = np.arange(1, i + 1)\n        A[backward, backward - 1] = 1\n        forward = np.arange(i, p - 1)\n        A[forward, forward + 1] = 1\n", what="index-array stores instead of the two inner loops")
+V("rf-c07-chain-vectorised-gap", "C07", "fire", UT, _C07_CH, "        backward = np.arange(1, i + 1)\n        A[backward, backward - 1] = 1\n        forward = np.arange(i + 1, p - 1)\n        A[forward, forward + 1] = 1\n", rule="CHAIN.partition", what="vectorised form leaves out the edge i -> i+1")
+V("rf-c07-vs-set-comprehension", "C07", "silent", UT, _C16_VS + "    return set(vstructs)\n", "    return {(i, c, j) if i < j else (j, c, i)\n            for c in colliders\n            for (i, j) in itertools.combinations(pa(c, A), 2)\n            if A[i, j] == 0 and A[j, i] == 0}\n", what="set comprehension")
